@@ -45,15 +45,18 @@ func c11Align(in, norm []byte) string {
 // c11Class names the known deviation a failing case falls under, judged from the normalized
 // text the first pass produced ("" = none): Normalize writes CLEANED tokens, and re-reading
 // cleaned text is not idempotent in three ways.
-func c11Class(norm []byte) string {
+func c11Class(in, norm []byte) string {
 	for _, l := range strings.Split(string(norm), "\n") {
-		t := strings.TrimRight(l, " \t\r")
-		if strings.HasSuffix(t, "-") {
+		f := strings.Fields(l)
+		// the mechanism: a NUMBER token keeps its trailing '-' and ends a line of the normalized text
+		if len(f) > 0 && strings.HasSuffix(f[len(f)-1], "-") && f[len(f)-1][0] >= '0' && f[len(f)-1][0] <= '9' {
 			return "cleaned-number-keeps-trailing-hyphen"
 		}
 	}
-	for _, w := range strings.Fields(string(norm)) {
-		if strings.Contains(strings.ToLower(w), "https") {
+	// the mechanism: a word as Match sees it (cleaned and rewritten once) still contains "https",
+	// so tokenising the normalized text rewrites it a second time
+	for _, w := range vTokenize(in) {
+		if strings.Contains(w.Word, "https") {
 			return "cleaned-token-contains-https"
 		}
 	}
@@ -65,7 +68,7 @@ func c11Class(norm []byte) string {
 	return ""
 }
 
-var c11Syms = []string{"ab", "Ab", "1.", "a.", "A.", "x-\n", "\n", "copyright 2000 x\n", "https://a.b", "http://s.a", "1-", "(c)", "&amp;", "zqoov", "2.0", "licence", "IV.", "b)", "-"}
+var c11Syms = []string{"ab", "Ab", "1.", "a.", "A.", "x-\n", "\n", "copyright 2000 x\n", "https://a.b", "http://s.a", "Https://a.b", "HTTPS://A.B", "1-", "(c)", "&amp;", "zqoov", "2.0", "licence", "IV.", "b)", "-"}
 
 func c11Build(seq []int) []byte {
 	var sb strings.Builder
@@ -123,7 +126,7 @@ func c11Tokens(c *vrep.Ctx) {
 		if msg != "" {
 			min := c11Reduce(seq)
 			key = fmt.Sprintf("c11_tokens:min:%q", string(c11Build(min)))
-			if cls := c11Class(NewClassifier(0.8).Normalize(c11Build(min))); cls != "" {
+			if cls := c11Class(c11Build(min), NewClassifier(0.8).Normalize(c11Build(min))); cls != "" {
 				key = "c11:class:" + cls
 			}
 		}
@@ -185,7 +188,7 @@ func c11Match(c *vrep.Ctx) {
 		if strings.Join(w, "\n") != strings.Join(g, "\n") {
 			msgs = append(msgs, fmt.Sprintf("Match(Normalize(in)) differs: original %v, normalized %v", w, g))
 		}
-		r.Note = map[string]interface{}{"id": cs.ID, "msgs": msgs, "nm": len(w), "class": c11Class(norm)}
+		r.Note = map[string]interface{}{"id": cs.ID, "msgs": msgs, "nm": len(w), "class": c11Class(in, norm)}
 	}
 	c.Run(vSplitExplorer(c, 0, 2), body, func(r *vx.Run) {
 		id := r.Note["id"].(string)
